@@ -445,6 +445,263 @@ theorem expand_cycle_error_sound {hooks : List Hook} {groups : List Group} :
             · exact plus_trans_star (hpath p hp') (star_single hstep)) hme
           exact ⟨.head hstep this.1, this.2⟩
 
+/-! ### `expandB`: the code with its two limits -/
+
+theorem mapCatB_congr {f g : Nat → Name → Except Err (List Hook × Nat)} (ns : List Name)
+    (h : ∀ b, ∀ n ∈ ns, f b n = g b n) : ∀ b, mapCatB f ns b = mapCatB g ns b := by
+  induction ns with
+  | nil => intro b; rfl
+  | cons a ns ih =>
+    intro b
+    simp only [mapCatB]
+    rw [h b a (by simp)]
+    cases g b a with
+    | error e => rfl
+    | ok res =>
+      obtain ⟨hs, b'⟩ := res
+      simp only
+      rw [ih (fun b n hn => h b n (by simp [hn]))]
+
+theorem mapCatB_error_mem {f : Nat → Name → Except Err (List Hook × Nat)} :
+    ∀ (ns : List Name) (b : Nat) (e : Err), mapCatB f ns b = .error e → ∃ n ∈ ns, ∃ b', f b' n = .error e := by
+  intro ns
+  induction ns with
+  | nil => intro b e h; simp [mapCatB] at h
+  | cons a ns ih =>
+    intro b e h
+    simp only [mapCatB] at h
+    cases ha : f b a with
+    | error e' =>
+      simp only [ha, Except.error.injEq] at h
+      subst h; exact ⟨a, by simp, b, ha⟩
+    | ok res =>
+      obtain ⟨hs, b'⟩ := res
+      simp only [ha] at h
+      cases hm : mapCatB f ns b' with
+      | error e' =>
+        simp only [hm, Except.error.injEq] at h
+        subst h
+        obtain ⟨n, hn, hb⟩ := ih b' e' hm
+        exact ⟨n, by simp [hn], hb⟩
+      | ok res' => obtain ⟨rest, b''⟩ := res'; simp [hm] at h
+
+/-- A successful member loop with the budget is the member loop of the denotation. -/
+theorem mapCatB_ok_mapCat {f : Nat → Name → Except Err (List Hook × Nat)}
+    {g : Name → Except Err (List Hook)} (hfg : ∀ b n r b', f b n = .ok (r, b') → g n = .ok r) :
+    ∀ (ns : List Name) (b : Nat) (r : List Hook) (b' : Nat), mapCatB f ns b = .ok (r, b') →
+      mapCat g ns = .ok r := by
+  intro ns
+  induction ns with
+  | nil =>
+    intro b r b' h
+    simp only [mapCatB, Except.ok.injEq, Prod.mk.injEq] at h
+    simp [mapCat, h.1]
+  | cons a ns ih =>
+    intro b r b' h
+    simp only [mapCatB] at h
+    cases ha : f b a with
+    | error e => simp [ha] at h
+    | ok res =>
+      obtain ⟨hs, b₁⟩ := res
+      simp only [ha] at h
+      cases hm : mapCatB f ns b₁ with
+      | error e => simp [hm] at h
+      | ok res' =>
+        obtain ⟨rest, b₂⟩ := res'
+        simp only [hm, Except.ok.injEq, Prod.mk.injEq] at h
+        simp only [mapCat, hfg b a hs b₁ ha, ih b₁ rest b₂ hm, h.1]
+
+theorem expandB_succ (hooks : List Hook) (groups : List Group) (fuel : Nat) (path : List Name)
+    (budget : Nat) (n : Name) :
+    expandB hooks groups (fuel + 1) path budget n =
+      match budget with
+      | 0 => .error (.tooMany n)
+      | budget + 1 =>
+        match findHook hooks n with
+        | some h => .ok ([h], budget)
+        | none =>
+          match findGroup groups n with
+          | none => .error (.notFound n)
+          | some g =>
+            if n ∈ path then .error (.cycle n)
+            else if path.length ≥ maxDepth then .error (.tooDeep n)
+            else mapCatB (expandB hooks groups fuel (n :: path)) g.hooks budget := by
+  rfl
+
+/-- **Whatever the code accepts is what the name denotes**: same hooks as `expand`. -/
+theorem expandB_ok_expand (hooks : List Hook) (groups : List Group) :
+    ∀ (fuel : Nat) (path : List Name) (budget : Nat) (n : Name) (r : List Hook) (b' : Nat),
+      expandB hooks groups fuel path budget n = .ok (r, b') → expand hooks groups fuel path n = .ok r := by
+  intro fuel
+  induction fuel with
+  | zero => intro path budget n r b' h; simp [expandB] at h
+  | succ k ih =>
+    intro path budget n r b' h
+    rw [expandB_succ] at h
+    rw [expand_succ]
+    cases budget with
+    | zero => simp at h
+    | succ budget =>
+      simp only at h
+      cases hh : findHook hooks n with
+      | some x => simp only [hh, Except.ok.injEq, Prod.mk.injEq] at h; simp [h.1]
+      | none =>
+        simp only [hh] at h ⊢
+        cases hg : findGroup groups n with
+        | none => simp [hg] at h
+        | some g =>
+          simp only [hg] at h ⊢
+          by_cases hp : n ∈ path
+          · simp [hp] at h
+          · simp only [hp, if_false] at h ⊢
+            by_cases hd : path.length ≥ maxDepth
+            · simp [hd] at h
+            · simp only [hd, if_false] at h
+              exact mapCatB_ok_mapCat (fun b m r₁ b₁ => ih (n :: path) b m r₁ b₁) _ _ _ _ h
+
+/-- With enough fuel one more unit changes nothing. -/
+theorem expandB_stable (hooks : List Hook) (groups : List Group) :
+    ∀ (fuel : Nat) (path : List Name) (budget : Nat) (n : Name), PathInv groups path →
+      groups.length + 1 ≤ fuel + path.length →
+      expandB hooks groups (fuel + 1) path budget n = expandB hooks groups fuel path budget n := by
+  intro fuel
+  induction fuel with
+  | zero =>
+    intro path budget n hinv hlen
+    have := hinv.length_le
+    omega
+  | succ k ih =>
+    intro path budget n hinv hlen
+    rw [expandB_succ hooks groups (k + 1), expandB_succ hooks groups k]
+    cases budget with
+    | zero => rfl
+    | succ budget =>
+      simp only
+      cases findHook hooks n with
+      | some h => rfl
+      | none =>
+        simp only
+        cases hg : findGroup groups n with
+        | none => rfl
+        | some g =>
+          simp only
+          by_cases hp : n ∈ path
+          · simp only [hp, if_true]
+          · simp only [hp, if_false]
+            by_cases hd : path.length ≥ maxDepth
+            · simp only [hd, if_true]
+            · simp only [hd, if_false]
+              apply mapCatB_congr
+              intro b m _
+              apply ih (n :: path) b m (hinv.cons hp hg)
+              simp only [List.length_cons]
+              omega
+
+theorem expandB_stable_add (hooks : List Hook) (groups : List Group) (fuel : Nat) (path : List Name)
+    (budget : Nat) (n : Name) (hinv : PathInv groups path) (hlen : groups.length + 1 ≤ fuel + path.length)
+    (k : Nat) : expandB hooks groups (fuel + k) path budget n = expandB hooks groups fuel path budget n := by
+  induction k with
+  | zero => rfl
+  | succ k ih =>
+    rw [← Nat.add_assoc, expandB_stable hooks groups (fuel + k) path budget n hinv (by omega), ih]
+
+/-- With enough fuel the `fuel` error never comes out. -/
+theorem expandB_no_fuel_error (hooks : List Hook) (groups : List Group) :
+    ∀ (fuel : Nat) (path : List Name) (budget : Nat) (n : Name), PathInv groups path →
+      groups.length + 1 ≤ fuel + path.length →
+      expandB hooks groups fuel path budget n ≠ .error .fuel := by
+  intro fuel
+  induction fuel with
+  | zero =>
+    intro path budget n hinv hlen
+    have := hinv.length_le
+    omega
+  | succ k ih =>
+    intro path budget n hinv hlen
+    rw [expandB_succ]
+    cases budget with
+    | zero => intro h'; cases h'
+    | succ budget =>
+      simp only
+      cases findHook hooks n with
+      | some h => intro h'; cases h'
+      | none =>
+        simp only
+        cases hg : findGroup groups n with
+        | none => intro h'; cases h'
+        | some g =>
+          simp only
+          by_cases hp : n ∈ path
+          · simp only [hp, if_true]; intro h'; cases h'
+          · simp only [hp, if_false]
+            by_cases hd : path.length ≥ maxDepth
+            · simp only [hd, if_true]; intro h'; cases h'
+            · simp only [hd, if_false]
+              intro h'
+              obtain ⟨m, _, b', hm⟩ := mapCatB_error_mem _ _ _ h'
+              exact ih (n :: path) b' m (hinv.cons hp hg) (by simp only [List.length_cons]; omega) hm
+
+/-- The `cycle` error of the code is only raised for a real cycle. -/
+theorem expandB_cycle_error_sound {hooks : List Hook} {groups : List Group} :
+    ∀ (fuel : Nat) (path : List Name) (budget : Nat) (s n : Name),
+      (∀ p ∈ path, Plus hooks groups p s) →
+      expandB hooks groups fuel path budget s = .error (.cycle n) →
+      Star hooks groups s n ∧ Plus hooks groups n n := by
+  intro fuel
+  induction fuel with
+  | zero => intro path budget s n _ h; simp [expandB] at h
+  | succ k ih =>
+    intro path budget s n hpath h
+    rw [expandB_succ] at h
+    cases budget with
+    | zero => simp at h
+    | succ budget =>
+      simp only at h
+      cases hh : findHook hooks s with
+      | some x => rw [hh] at h; cases h
+      | none =>
+        rw [hh] at h
+        simp only at h
+        cases hg : findGroup groups s with
+        | none => rw [hg] at h; cases h
+        | some g =>
+          rw [hg] at h
+          simp only at h
+          by_cases hp : s ∈ path
+          · simp only [hp, if_true] at h
+            cases h
+            exact ⟨.refl _, hpath s hp⟩
+          · simp only [hp, if_false] at h
+            by_cases hd : path.length ≥ maxDepth
+            · simp only [hd, if_true] at h; cases h
+            · simp only [hd, if_false] at h
+              obtain ⟨m, hm, b', hme⟩ := mapCatB_error_mem _ _ _ h
+              have hstep : Step hooks groups s m := ⟨hh, g, hg, hm⟩
+              have := ih (s :: path) b' m n (by
+                intro p hp'
+                rcases List.mem_cons.mp hp' with rfl | hp'
+                · exact ⟨m, hstep, .refl _⟩
+                · exact plus_trans_star (hpath p hp') (star_single hstep)) hme
+              exact ⟨.head hstep this.1, this.2⟩
+
+theorem dropBudget_ok {x : Except Err (List Hook × Nat)} {r : List Hook} (h : dropBudget x = .ok r) :
+    ∃ b, x = .ok (r, b) := by
+  cases x with
+  | error e => simp [dropBudget] at h
+  | ok res => obtain ⟨r', b⟩ := res; simp only [dropBudget, Except.ok.injEq] at h; subst h; exact ⟨b, rfl⟩
+
+theorem dropBudget_error {x : Except Err (List Hook × Nat)} {e : Err} (h : dropBudget x = .error e) :
+    x = .error e := by
+  cases x with
+  | error e' => simp only [dropBudget, Except.error.injEq] at h; rw [h]
+  | ok res => obtain ⟨r', b⟩ := res; simp [dropBudget] at h
+
+/-- Whatever `Config::get_hook` accepts is what the name denotes. -/
+theorem getHookFuel_ok_expand {hooks : List Hook} {groups : List Group} {fuel : Nat} {n : Name}
+    {r : List Hook} (h : getHookFuel hooks groups fuel n = .ok r) : expand hooks groups fuel [] n = .ok r := by
+  obtain ⟨b, hb⟩ := dropBudget_ok h
+  exact expandB_ok_expand hooks groups fuel [] _ n r b hb
+
 /-! ### `call` -/
 
 theorem call_cons_skip {h : Hook} {ty : HookType} (ht : h.hasType ty = false) (hs : List Hook)
